@@ -203,7 +203,7 @@ def run(tier: str, seed: int, t0: float) -> int:
     jobs = [(b, "G+T")]
     # ---- T random on bundled schemas and variants
     n_docs = 30 if not thorough else 300
-    for name in schemas.BUNDLED_PLUS + ["s1", "s3", "bm"]:
+    for name in schemas.BUNDLED_PLUS + ["s1", "s3", "bm", "at", "grid"]:
         sch, js, pairs = universe.random_docs(name, n_docs, rng)
         b = trace.Batch(js)
         slices = []
@@ -239,13 +239,17 @@ def run(tier: str, seed: int, t0: float) -> int:
                         sl, p = rng.choice(slices)
                         ev_replace(b, sch, rd, di, f, t, sl, b.slice(p))
                 # foreign slices whose open depths fit the range (most random ones do not)
-                try:
-                    df, dt = rd.resolve(f).depth, rd.resolve(t).depth
-                except Exception:  # noqa: BLE001
-                    continue
+                da = gen.depth_array(toks)                 # (depths from the tokens, not from the library's resolve)
+                df, dt = da[f], da[t]
                 fitting = [(sl, p) for sl, p in slices if p["os"] <= df and df - p["os"] == dt - p["oe"] and (p["os"] or p["oe"])]
                 for sl, p in (fitting if len(fitting) <= 3 else rng.sample(fitting, 3)):
                     ev_replace(b, sch, rd, di, f, t, sl, b.slice(p))
+            # plain deletions between positions of equal depth (the most common edit), also across several levels
+            from prosemirror.model import Slice
+            da = gen.depth_array(toks)
+            same = [(f, t) for f in range(n + 1) for t in range(f, n + 1) if da[f] == da[t] and not inside_surrogate(toks, f) and not inside_surrogate(toks, t)]
+            for f, t in (same if len(same) <= 12 else rng.sample(same, 12)):
+                ev_replace(b, sch, rd, di, f, t, Slice.empty, b.slice(proj.proj_slice(Slice.empty)))
         jobs.append((b, f"T random[{name}]"))
     # ---- T: every Node.replace / Node.slice on a document that the repository's own test-suite performs
     from .. import suitetrace
